@@ -3,7 +3,7 @@
 // Contracts for the verification harness in /verif (comment-only; no declarations).
 package clientset
 
-//@ pred validClient(c) = c != nil && c.APIResource != nil && c.rootClient != nil && c.ResourceInterface != nil
+//@ pred validClient(c) = c != nil && validAPIResource(c.APIResource) && c.rootClient != nil && c.ResourceInterface != nil
 
 //@ func ResourceClient.Namespace(rc, namespace) (r)
 //@   requires validClient(rc)
@@ -12,3 +12,25 @@ package clientset
 //@   ensures [C02] r.APIResource == rc.APIResource && r.rootClient == rc.rootClient
 //@   ensures [C02] rc.APIResource.Namespaced && namespace != "" ==> riNamespace(r.ResourceInterface) == namespace && riRoot(r.ResourceInterface) == rc.rootClient
 //@   ensures [C02] !rc.APIResource.Namespaced ==> r == rc
+
+//@ func Clientset.Kind(cs, apiVersion, kind) (r, err)
+//@   requires cs != nil && cs.resources != nil && cs.dc != nil
+//@   safety C13
+//@   ensures [C02,C13] err == nil ==> validClient(r)
+//@   ensures [C02,C13] err != nil ==> r == nil
+
+//@ func Clientset.Resource(cs, apiVersion, resource) (r, err)
+//@   requires cs != nil && cs.resources != nil && cs.dc != nil
+//@   safety C13
+//@   ensures [C02,C13] err == nil ==> validClient(r)
+//@   ensures [C02,C13] err != nil ==> r == nil
+
+//@ func ResourceClient.AddFinalizer(rc, orig, name) (res, err)
+//@   requires validClient(rc) && orig != nil
+//@   safety C13
+//@   ensures [C10,C02] err == nil ==> res != nil && res.GetUID() == orig.GetUID() && ContainsFinalizer(res, name)
+
+//@ func ResourceClient.RemoveFinalizer(rc, orig, name) (res, err)
+//@   requires validClient(rc) && orig != nil
+//@   safety C13
+//@   ensures [C10,C02] err == nil ==> res != nil && res.GetUID() == orig.GetUID() && !ContainsFinalizer(res, name)
